@@ -19,6 +19,9 @@ checks["C08"] = dict(cat="fault_enumeration", ref="§7 C08", engine="client", te
 checks["C10"] = dict(cat="exploration", ref="§7 C10", engine="hello", technique="deterministic simulation with fault injection into the hello message: structural mutations (delete/retype/rename/duplicate/re-point/null/extreme) at tape-chosen or systematically swept nodes of a generated plugin description delivered over a fragmenting transport to the real Client.ReadSchema, followed by first-use exercise of whatever schema is accepted",
    text="Seeded search over single and double mutations of generated descriptions plus grammar-free random trees; sweep batches apply every mutation kind at every node (thorough) of base descriptions. Violation = a panic in ReadSchema or in any Unserialize/Validate/Serialize/ValidateCompatibility/SelfSerialize on an accepted schema; a fatal stack overflow kills the worker and is attributed to the run by the driver.",
    note="Trusted: rewriter, synctest. The schedule dimension is degenerate here (one engine goroutine); what is explored is the fault space. UnserializeScope called directly is not covered. Exercise values are generated valid/invalid inputs plus a fixed palette of decoder-producible shapes; this is first-use smoke exercise, not C04's full input domain.")
+checks["C09"] = dict(cat="exploration", ref="§7 C09", engine="session", technique="deterministic simulation (replica agreement): the plugin's schema and the engine's copy rebuilt from the hello message carried over a simulated fragmenting transport are compared inside seeded client/server sessions",
+   text="RESTRICTED to the hello clause of C09: for generated plugin schemas the copy rebuilt by Client.ReadSchema must describe itself identically to the plugin's own copy, be a describe/rebuild/describe fixed point, and agree with the plugin's copy on every input, output and signal payload of the simulated session.",
+   note="Not decided: the direct (no transport) and YAML fixed-point clauses and behavioural equality on inputs never sent in a session - pure clauses outside this technique. Trusted: rewriter, synctest, cbor.")
 not_yet = {
 }
 na = {
